@@ -17,9 +17,9 @@ CHECKS = {
   note=TB + "the order laws are hypotheses of the monotonicity theorems (hold for non-NaN doubles).",
   tech="Lean 4 proof (loop invariant, induction) + differential correspondence", ref="6 C02"),
  "C03": dict(
-  text="PARTIAL. What is machine-checked so far is the search skeleton shared with C04 (only in-tolerance candidates on the text's own chroma/hue line are ever recorded); completeness of the numeric search is not a control-flow fact and is decided by evaluating the property itself on the implementation: an independent scan of the lightness line (Lean model leaves, 4096 points) finds witnesses, and every witnessed case is run in all three modes. The whole-pipeline correspondence ties the executable model to the code on the same cases.",
-  note=TB + "completeness rests on numeric facts about OKLCH/CIEDE2000/WCAG monotonicity along the lightness line, observed per input, not proved.",
-  tech="Lean 4 proof (partial: search invariants) + witness scan and differential correspondence", ref="6 C03"),
+  text="Theorems (CmProps/C03search.lean, 50+): a traced loop invariant of the lightness search (recorded numbers belong to the recorded colour; a target-meeting in-tolerance probe, once seen, is never replaced by a below-target one and the recorded dE only decreases), binarySearch_meets_target_of_probe / _ge_of_probe, gen_success_if_some_phase_meets_min and gen_early_within (success and an early return at the 1.6 entry), lifted through all three strategies to checkAndFix_C03_of_probe (success and dE <= 2.0 for every mode and setting, every ordered carrier and oracle). The full-strength statement C03_full is a definition; it is proved at the exact carriers Q and R relative to the explicit leaf hypotheses BandHyp (monotonicity of dE and contrast away from the text on the searched side, search direction correct, band wider than the 2^-20 bisection resolution): C03_full_rat / C03_full_real. Those numeric hypotheses are not control-flow facts; per input the property itself is decided on the implementation: an independent scan of the lightness line (Lean model leaves, 4096 points) finds witnesses and every witnessed case is run in all three modes and through the API in re-formatted spellings. Whole-pipeline correspondence ties the model to the code.",
+  note=TB + "PARTIAL: completeness rests on BandHyp (numeric facts about OKLCH/CIEDE2000/WCAG along the lightness line), which is evaluated by observation per input, not proved.",
+  tech="Lean 4 proof (loop invariant, completeness relative to explicit leaf hypotheses) + witness scan and differential correspondence", ref="6 C03"),
  "C04": dict(
   text="Theorems (CmProps/C04.lean): lightness search and descent return None or a valid colour within their tolerance; the multi-phase search returns its input or a valid colour within one entry of ANY schedule (empty schedule: input); mode 0 stays within 5.0 (every default-schedule entry <= 5.0 by decide + literal monotonicity); mode 1 is a chain of <= 10 steps of <= 3.0 and mode 2 that, or <= 15 such steps, or one step <= 15.0 (inductive Chain predicate). Tie: routine-level and whole-pipeline correspondence (bit-exact), direct calls with arbitrary schedules, and observation of every multi-phase call inside mode 1/2 runs.",
   note=TB + "deltaE(t,t)=0 is a property of the leaf (C11), so the theorems say 'the input itself or within the bound'.",
@@ -57,19 +57,19 @@ CHECKS = {
   note=TB + "exact blend reference uses tinycss2.color3 for the CSS-defined HSL channels.",
   tech="Lean 4 proof (data flow of the compositing context) + differential correspondence", ref="6 C13"),
  "C14": dict(
-  text="The model gives every raising Python operation an explicit Except outcome (ValueError / TypeError / OverflowError) and Color.new records the first two as 'invalid'. Theorem so far: float(str) fails with ValueError only; the totality theorem over the full PyVal domain is being added. Tie: outcome-class comparison (valid rgb | invalid | raised) between Color/ColorPair and the model on near-miss CSS (truncations, stray units/signs, nested parentheses, var(), CSS-wide keywords, odd whitespace, Unicode digits) and typed sequences over ints, floats incl. nan/inf, strings, None, bools, containers; plus the invalid-pair behaviour of is_readable / make_readable / bulk.",
-  note=TB + "PARTIAL until color_total is merged: CPython's float() grammar and str() of numbers are modelled (compared on every generated token), Unicode classes are an oracle.",
+  text="The model gives every raising Python operation an explicit Except outcome (ValueError / TypeError / OverflowError) and Color.new records the first two as 'invalid'. Theorems (CmProps/C14*.lean, 47): parseColor_errors (every failure of the parser, for every carrier, environment, value and background, is a ValueError or a TypeError - one lemma per function), color_total (the constructor never lets an exception escape), color_states, parse_ok_valid (at the exact carrier every accepted colour has three channels in 0..255; the hypothesis on the supplied background is shown necessary), pair_invalid_behaviour (is_readable 'Not Readable', make_readable (None, False)), bulk_entry_invalid, bulk_carries_on. Tie: outcome-class comparison (valid rgb | invalid | raised) between Color/ColorPair and the model on near-miss CSS and typed sequences over ints, floats incl. nan/inf, strings, None, bools, containers, plus the invalid-pair behaviour of the API.",
+  note=TB + "CPython's float() grammar and str() of numbers are modelled (compared on every generated token), Unicode classes are an oracle; float(huge int) -> OverflowError is outside the modelled domain (ints of moderate magnitude).",
   tech="Lean 4 model with explicit exception outcomes + differential correspondence", ref="6 C14"),
  "C17": dict(
   text="Theorems (CmProps/C17.lean) over an effects model of the API: silent_default, silent_invalid, result_indep / result_plain (the visualisers run after the result tuple is fixed), writes_documented, write_only_if_asked, preview_args_hex (the preview only ever receives #rrggbb strings when the result can be re-read, which C06 gives). Tie: every case is run plain and with show / save_report / both inside a private directory with stdout/stderr captured at file-descriptor level; results compared, files listed.",
   note=TB + "PARTIAL: rich's rendering of hex colours is trusted (exercised on every case, not modelled).",
   tech="Lean 4 proof over an effects model + observed effects", ref="6 C17"),
  "C08": dict(
-  text="A Lean model of the rewriter (Cm.Cli, CmModel/Cli.lean) over an abstract stylesheet: custom-property collection, var() resolution with the tool's exact regular-expression semantics, pair extraction, three-way classification, declaration / custom-property rewriting, nesting in @media/@supports to any depth (mutual structural recursion on the nested tree), the shared :root/html declaration lists, counters, detail lists, and the serialisation failures that make a file be skipped. Theorems over it are being added (partition of rules into the three categories, attention rules unchanged). Tie: the harness parses each generated stylesheet with the real tinycss2, hands the tree to the model (with the model's own ColorPair/make_readable as pairEval) and compares counters, the needs-attention list, the report cards and the parsed _cm.css with the model's prediction; independently, an oracle that shares no code with the model judges the property on the tool's observable output alone (stdout, cards, written file, public API).",
+  text="A Lean model of the rewriter (Cm.Cli) over an abstract stylesheet: custom-property collection, var() resolution with the tool's exact regular-expression semantics, pair extraction, three-way classification, declaration / custom-property rewriting, nesting in @media/@supports to any depth, the shared :root/html declaration lists, counters, detail lists, serialisation failures. Theorems (CmProps/C08cli.lean, 33, for every oracle pairEval and stylesheet): partition (the three counters grow by exactly the number of rules with a text colour; a skipped file leaves at most that), rule_counted_once, details_agree, listed_by_selector, attention_unchanged(_nested), written_value_direct / adjusted_written / written_in_file_direct (reported = written for direct declarations); the custom-property case is reported_is_written_var_partial (K1 makes the file-level claim false). Tie: the harness parses each generated stylesheet with the real tinycss2, hands the tree to the model and compares counters, the needs-attention list, the report cards and the parsed _cm.css with the model's prediction; independently an oracle that shares no code with the model judges the property on the tool's observable output alone.",
   note=TB + "PARTIAL: tinycss2's tokeniser/parser/serialiser is a parameter (modelled, not verified); K1 (a shared custom property adjusted for several rules) and K2 (unserialisable vendor hack in an adjusted rule) are known findings.",
   tech="Lean 4 model of the rewriter + differential correspondence + independent output oracle", ref="6 C08"),
  "C09": dict(
-  text="Same model as C08 (the rewriter only ever replaces the value of a declaration: setDeclValue keeps length, names, flags). Tie / observation: byte snapshots of every input before and after each run, directory listings (only <name>_cm.css beside each processed input and cm_colors_report.html in the working directory), and a token-level comparison of input and output through tinycss2 on stylesheets full of carry-through material (@import/@charset/@font-face/@keyframes/@page/@namespace/@layer/unknown at-rules, strings and url() with braces/semicolons/comment markers, escapes, !important, vendor hacks, empty rules, non-ASCII), single-file and directory runs: every difference must be the value of the text-colour declaration of a rule reported as adjusted, or of a custom property in :root/html.",
+  text="Same rewriter model. Theorems (CmProps/C09cli.lean, 20): only_values_change (a written file has the same shape as its input: same nodes, selectors, at-rules, opaque items, declaration names and !important flags, in order), only_adjusted_values_change (outside :root/html every rule is literally unchanged or differs exactly in the value of its last color declaration), opaque_nodes_verbatim; path lemmas over List Char: outName_ne, outName_of_css, outName_injective, writes_beside_inputs, writes_not_inputs. Observation: byte snapshots of every input before/after each run, directory listings, token-level comparison of input and output through tinycss2 on stylesheets full of carry-through material, single-file (incl. a *_cm.css given directly) and directory runs.",
   note=TB + "PARTIAL: tinycss2 serialisation fidelity and the OS honouring open(..., 'r') are modelled, not verified; K2 is a known finding (no output at all for that file).",
   tech="Lean 4 model of the rewriter + observed file-system effects and token-level diff", ref="6 C09"),
  "C15": dict(
@@ -77,7 +77,7 @@ CHECKS = {
   note=TB + "PARTIAL: the scan's soundness is trusted (backed by the dynamic digests); CPython thread switching inside an operation and rich's console state are not modelled - the schedule clause rests on the observed thread run.",
   tech="translator-regenerated state signature + Lean 4 proof (frame/interleaving) + history / fresh-process / thread runs", ref="6 C15"),
  "C18": dict(
-  text="Same rewriter model; the batch is the model's processFile folded over the files with shared counters and per-file custom-property tables (prePass is a function of the file's own nodes). Tie: generated directory trees (nested folders, hidden folder, multi-dot names, stale *_cm.css, non-.css files, a custom property defined in one file and used in another) with every fault kind placed at random (non-UTF-8 bytes, a directory or dangling link named *.css, unserialisable CSS, empty file); each tree is run twice in a row and every good file alone: outputs byte-compared, stderr lines and exit status checked, discovery set checked, and the run compared with the model fed the same files in the traversal order the tool used.",
+  text="Same rewriter model with the per-file loop (Cm.Fs.runFiles). Theorems (CmProps/C18cli.lean, 21): per_file_independent (a file's outcome does not depend on the incoming counters/details: it is a function of its own nodes, the settings and pairEval), run_writes_eq / run_write_of_file / run_alone, run_writes_perm (any traversal order gives the same writes and errors up to order), faults_skipped / unreadable_reported / failing_file_skipped, discovered_not_cm, outputs_not_inputs, rerun_discovers_same, rerun_same_writes, dotfile_edge. Tie: generated directory trees with every fault kind placed at random, each run twice in a row and every good file alone: outputs byte-compared, stderr lines and exit status checked, discovery set checked, and the run compared with the model fed the same files in the traversal order the tool used.",
   note=TB + "PARTIAL: the OS's behaviour on unreadable files is observed, not modelled; traversal order is taken from Path.rglob.",
   tech="Lean 4 model of the rewriter + fault enumeration over directory trees + differential correspondence", ref="6 C18"),
  "C19": dict(
